@@ -1,8 +1,8 @@
 package main
 
 import (
-	"go/ast"
 	"fmt"
+	"go/ast"
 	"go/token"
 
 	"golang.org/x/tools/go/ssa"
